@@ -348,6 +348,13 @@ def exCall : FuncIR :=
 example : checkFunc exCall = true := by decide
 example : Safe exCall := checkFunc_sound _ (by decide)
 
+/-- the hypotheses of `definedness_sound` / `decref_owned` / `return_balanced` are satisfiable: the first micro-op of
+    `exCall` reads its argument, which is therefore a live object in every allowed initial state -/
+example (s : CState) (hI : InitOK exCall s) : (s 0).usable = true :=
+  definedness_sound (f := exCall) (by decide) (ReachVia.entry hI) (b := ⟨[.use 0, .define 1 .maybe],
+      .br [⟨[.assumeNull 1], 2⟩, ⟨[.assumeOk 1], 1⟩]⟩) (pre := []) (post := [.define 1 .maybe]) (ss := [s])
+    rfl rfl rfl (List.mem_singleton.mpr rfl)
+
 /-- a loop: `while …: t = new(); use t; dec_ref t` -/
 def exLoop : FuncIR :=
   { nvars := 2, args := [(0, .optional)],
